@@ -87,11 +87,19 @@ theorem setFn_other {α β : Type} [DecidableEq α] (f : α → β) (k : α) (v 
 
 /-! ### configuration, invariant -/
 
-/-- What `V4ServerConf.Validate` guarantees (and a non-zero pool start). -/
-structure ConfOK (c : Conf) : Prop where
-  lt : c.start < c.stop
-  pos : 0 < c.start
-  gwOut : ¬ (c.start ≤ c.gw ∧ c.gw ≤ c.stop)
+/-- What `V4ServerConf.Validate` guarantees: a pool of at least two addresses
+that does not contain the gateway. -/
+theorem validate_spec {c : Conf} (h : validate c = true) :
+    c.start < c.stop ∧ ¬ (c.start ≤ c.gw ∧ c.gw ≤ c.stop) ∧ inSubnet c c.start = true ∧ inSubnet c c.stop = true := by
+  unfold validate at h
+  simp only [Bool.and_eq_true, Bool.not_eq_true', Bool.and_eq_false_iff, decide_eq_true_eq,
+    decide_eq_false_iff_not] at h
+  obtain ⟨⟨⟨h1, h2⟩, h3⟩, h4⟩ := h
+  refine ⟨h1, ?_, h3, h4⟩
+  rintro ⟨a, b⟩
+  rcases h2 with h2 | h2
+  · exact h2 a
+  · exact h2 b
 
 def DiskOK (c : Conf) (d : List DLease) : Prop :=
   (d.map (·.ip)).Nodup ∧ (d.map (·.mac)).Nodup ∧
